@@ -1091,6 +1091,18 @@ func r18VectorAddress(c *RuleCtx) {
 			if !hasTable {
 				continue
 			}
+			// called only after the table was found non-empty here: nothing to ask of the callee
+			if pa != nil {
+				guardedHere := len(pa.statesBefore(cs)) > 0
+				for _, ev := range pa.statesBefore(cs) {
+					if ev&evNonEmpty == 0 {
+						guardedHere = false
+					}
+				}
+				if guardedHere {
+					continue
+				}
+			}
 			cpa := analyse(callee)
 			okw := true
 			for _, cs2 := range callSites(callee) {
